@@ -27,7 +27,7 @@ RULE = (
     "on 3-4-5 directions, mindist in {0, 1e-3..1e4}; (b) seeded random clouds at scales 1e-6..1e8 with coincident data/force points; "
     "(c) dyadic clouds shifted by dyadic offsets (bit-identical Jacobians required); (d) VectorSpline2D with Poisson in [-1,1] incl. "
     "+-1 and mindist in {0, 1e-3..1e4}; (e) Trend degrees 0..6; (f) CheckerBoard with default and explicit wavelengths; (g) Linear / "
-    "Cubic with both rescale settings on isotropic and strongly anisotropic clouds; (h) integer-typed (int32 / int64) query and force coordinates, including values whose squares / powers overflow the integer dtype; (i) life-cycle histories: evaluate, change parameters on the same object (set_params or attribute assignment: CheckerBoard region / amplitude / wavelengths, Spline mindist / forces, VectorSpline2D poisson / mindist, Trend degree, Linear / Cubic rescale between fits, instances of sibling classes with different rescale fitted one after the other), evaluate again; (j) equivalent spellings of option values (rescale as numpy.bool_ / comparison result / 1, 0 / 0-d array; mindist, damping, poisson, degree, amplitude, wavelengths as int / numpy integer / numpy float; region as list / tuple / ndarray of ints or numpy scalars), given positionally, by keyword or through set_params; (k) extra (ignored) coordinate arrays after easting and northing holding NaN gaps, all NaN, +-inf, integer / bool / float32 dtypes in predict, fit, score, grid, scatter and profile (must equal the two-coordinate call bit for bit and the analytic formula); (l) single calls with more than 100 000 query points (predict, 300x400-class grids, scatter, profile) for Trend with asymmetric coefficients, Spline / VectorSpline2D with few forces, CheckerBoard, Linear, Cubic, also compared with the same points in small calls; (m) pickle round trips, copy.deepcopy and copy.copy of fitted gridders (Linear / Cubic with rescale=True on anisotropic offset coordinates, Spline, VectorSpline2D, Trend, Chain, Vector with KNeighbors); (n) 2-D query arrays that are not regular grids (regular border with displaced interior nodes or one moved line, scattered 2-D, 'ij' meshgrids, rotated and sheared grids, (1,n) and (n,1) point lists) against the formula at the real node positions and the raveled call; (o) fitted Spline / VectorSpline2D / Trend / Chain / "
+    "Cubic with both rescale settings on isotropic and strongly anisotropic clouds; (h) integer-typed (int32 / int64) query and force coordinates, including values whose squares / powers overflow the integer dtype; (i) life-cycle histories: evaluate, change parameters on the same object (set_params or attribute assignment: CheckerBoard region / amplitude / wavelengths, Spline mindist / forces, VectorSpline2D poisson / mindist, Trend degree, Linear / Cubic rescale between fits, instances of sibling classes with different rescale fitted one after the other), evaluate again; (j) equivalent spellings of option values (rescale as numpy.bool_ / comparison result / 1, 0 / 0-d array; mindist, damping, poisson, degree, amplitude, wavelengths as int / numpy integer / numpy float; region as list / tuple / ndarray of ints or numpy scalars), given positionally, by keyword or through set_params; (k) extra (ignored) coordinate arrays after easting and northing holding NaN gaps, all NaN, +-inf, integer / bool / float32 dtypes in predict, fit, score, grid, scatter and profile (must equal the two-coordinate call bit for bit and the analytic formula); (l) single calls with more than 100 000 query points (predict, 300x400-class grids, scatter, profile) for Trend with asymmetric coefficients, Spline / VectorSpline2D with few forces, CheckerBoard, Linear, Cubic, also compared with the same points in small calls; (m) pickle round trips, copy.deepcopy and copy.copy of fitted gridders (Linear / Cubic with rescale=True on anisotropic offset coordinates, Spline, VectorSpline2D, Trend, Chain, Vector with KNeighbors); (n) 2-D query arrays that are not regular grids (regular border with displaced interior nodes or one moved line, scattered 2-D, 'ij' meshgrids, rotated and sheared grids, (1,n) and (n,1) point lists) against the formula at the real node positions and the raveled call; (o) jacobian(dtype=float32 / 'f4' / numpy.float32 / 'float64' spelled out) with UTM-like coordinates (offsets 5e5..9e6, separations 1..1000 m): the float64 kernel rounded once, unchanged under a shift of all coordinates; (p) fitted Spline / VectorSpline2D / Trend / Chain / "
     "Vector / SplineCV through predict, grid, scatter and profile. Parameters are set by hand (unit vectors, random vectors) on unfitted "
     "estimators as well as estimated by fit; queries are 0-d, 1-D, 2-D and 3-D. A monitored evaluation is non-trivial when its kernel "
     "arguments contain a coincident pair or at least one distance in each of (0,1), [1,e) and >= e (spline family), degree >= 2 (Trend), "
@@ -119,7 +119,9 @@ FLOORS = {  # ~40 % of what the unchanged tree produces at quick seed 0 (observe
         "gridlike:VectorSpline2D:regular_grid": 6, "gridlike:VectorSpline2D:rotated_grid": 6, "gridlike:VectorSpline2D:scattered_2d": 6,
         "gridlike:VectorSpline2D:sheared_grid": 6, "eval:two_dimensional_query_equals_raveled": 345, "defaults:CheckerBoard": 4,
         "defaults:CheckerBoard(one wavelength)": 8, "defaults:Cubic": 4, "defaults:Linear": 4, "defaults:Spline": 4, "defaults:VectorSpline2D": 4,
-        "defaults:jacobian dtype": 12, "eval:documented_defaults": 40,
+        "defaults:jacobian dtype": 12, "eval:documented_defaults": 40, "jacobian_dtype:float32": 48, "narrow_jacobian:Spline:float32": 9,
+        "narrow_jacobian:Spline:float64": 2, "narrow_jacobian:Trend:float32": 9, "narrow_jacobian:Trend:float64": 2,
+        "narrow_jacobian:VectorSpline2D:float32": 9, "narrow_jacobian:VectorSpline2D:float64": 2, "eval:narrow_jacobian_translation": 24,
     },
     "thorough": {
         "eval:spline_jacobian": 15500, "eval:spline_predict": 38000, "eval:vector_jacobian": 11400, "eval:vector_predict": 36500,
@@ -199,7 +201,10 @@ FLOORS = {  # ~40 % of what the unchanged tree produces at quick seed 0 (observe
         "gridlike:VectorSpline2D:regular_grid": 120, "gridlike:VectorSpline2D:rotated_grid": 120, "gridlike:VectorSpline2D:scattered_2d": 120,
         "gridlike:VectorSpline2D:sheared_grid": 120, "eval:two_dimensional_query_equals_raveled": 6900, "defaults:CheckerBoard": 40,
         "defaults:CheckerBoard(one wavelength)": 80, "defaults:Cubic": 40, "defaults:Linear": 40, "defaults:Spline": 40,
-        "defaults:VectorSpline2D": 40, "defaults:jacobian dtype": 120, "eval:documented_defaults": 400,
+        "defaults:VectorSpline2D": 40, "defaults:jacobian dtype": 120, "eval:documented_defaults": 400, "jacobian_dtype:float32": 960,
+        "narrow_jacobian:Spline:float32": 180, "narrow_jacobian:Spline:float64": 40, "narrow_jacobian:Trend:float32": 180,
+        "narrow_jacobian:Trend:float64": 40, "narrow_jacobian:VectorSpline2D:float32": 180, "narrow_jacobian:VectorSpline2D:float64": 40,
+        "eval:narrow_jacobian_translation": 480,
     },
 }
 JOBS = {"quick": 1, "thorough": 16}
@@ -209,8 +214,8 @@ MPMATH_BUDGET = {"quick": 260, "thorough": 60}  # per process (thorough runs 16 
 
 def plan(tier):
     if tier == "quick":
-        return collections.OrderedDict(ladder=360, pairs=480, translation=240, vector=420, trend=480, checker=420, scipy=420, fitted=300, integer=210, history=240, spelling=300, extras=210, large=24, copies=96, gridlike=96, defaults=70)
-    return collections.OrderedDict(ladder=7200, pairs=9600, translation=4800, vector=8400, trend=9600, checker=8400, scipy=8400, fitted=6000, integer=4200, history=4800, spelling=6000, extras=4200, large=96, copies=1920, gridlike=1920, defaults=700)
+        return collections.OrderedDict(ladder=360, pairs=480, translation=240, vector=420, trend=480, checker=420, scipy=420, fitted=300, integer=210, history=240, spelling=300, extras=210, large=24, copies=96, gridlike=96, defaults=70, narrow_jacobian=90)
+    return collections.OrderedDict(ladder=7200, pairs=9600, translation=4800, vector=8400, trend=9600, checker=8400, scipy=8400, fitted=6000, integer=4200, history=4800, spelling=6000, extras=4200, large=96, copies=1920, gridlike=1920, defaults=700, narrow_jacobian=1800)
 
 
 # ----------------------------------------------------------------------
@@ -238,6 +243,14 @@ def _intend(board, **params):
     rec = _INTENDED.setdefault(board, {"amplitude": 1000, "region": (0, 5000, -5000, 0), "w_east": None, "w_north": None})
     rec.update(params)
     return board
+
+
+def _narrowing(run, dtype):
+    """Relative rounding allowance for a Jacobian requested in a narrower floating dtype: the float64 kernel value rounded once."""
+    if np.dtype(dtype) == np.dtype("float64"):
+        return 0.0
+    run.count("jacobian_dtype:" + np.dtype(dtype).name)
+    return 1.01 * float(np.finfo(np.dtype(dtype)).eps)
 
 
 def _count_integer(run, monitor, coordinates):
@@ -329,9 +342,10 @@ def install(tap, run):
             return
         a = ev.args
         self = a["self"]
-        if np.dtype(a["dtype"]) != np.dtype("float64"):
-            run.count("skipped:jacobian_dtype_not_float64")
+        if np.dtype(a["dtype"]) not in (np.dtype("float64"), np.dtype("float32")):
+            run.count("skipped:jacobian_dtype_not_floating")
             return
+        narrow = _narrowing(run, a["dtype"])
         obs = _pair(a["coordinates"])
         frc = _pair(a["force_coords"])
         if obs is None or frc is None:
@@ -351,7 +365,7 @@ def install(tap, run):
             run.violation("spline_jacobian", "Jacobian shape %s is not (n_data, n_forces) = %s" % (jac.shape, (east.size, fe.size)), witness, key="spline-jac-shape")
             return
         expected, r = ref.spline_jacobian(east, north, fe, fn, mindist)
-        tol = ref.spline_green_tol(r)
+        tol = ref.spline_green_tol(r) + narrow * np.abs(expected) + (float(np.finfo("float32").tiny) if narrow else 0.0)
         delta_zero = (east[:, None] == fe[None, :]) & (north[:, None] == fn[None, :])
         if _distance_classes(run, r, delta_zero):
             run.mark_nontrivial("spline_jacobian", east, north, fe, fn, mindist)
@@ -428,9 +442,10 @@ def install(tap, run):
             return
         a = ev.args
         self = a["self"]
-        if np.dtype(a["dtype"]) != np.dtype("float64"):
-            run.count("skipped:jacobian_dtype_not_float64")
+        if np.dtype(a["dtype"]) not in (np.dtype("float64"), np.dtype("float32")):
+            run.count("skipped:jacobian_dtype_not_floating")
             return
+        narrow = _narrowing(run, a["dtype"])
         obs = _pair(a["coordinates"])
         frc = _pair(a["force_coords"])
         if obs is None or frc is None:
@@ -454,6 +469,9 @@ def install(tap, run):
         dn = north[:, None] - fn[None, :]
         gee, gnn, gne, r = ref.elastic_green(de, dn, mindist, poisson)
         tee, tnn, tne = _elastic_tolerances(gee, gnn, gne, r, de, dn, poisson)
+        if narrow:
+            with np.errstate(invalid="ignore"):
+                tee, tnn, tne = tee + narrow * np.abs(gee), tnn + narrow * np.abs(gnn), tne + narrow * np.abs(gne) + float(np.finfo("float32").tiny)
         judged = r > 0  # r = 0 needs mindist = 0 and a coincident pair: outside the statement
         run.count("vector:r==0_entries_outside_statement", int(np.count_nonzero(~judged)))
         delta_zero = (de == 0) & (dn == 0)
@@ -554,9 +572,10 @@ def install(tap, run):
             return
         a = ev.args
         self = a["self"]
-        if np.dtype(a["dtype"]) != np.dtype("float64"):
-            run.count("skipped:jacobian_dtype_not_float64")
+        if np.dtype(a["dtype"]) not in (np.dtype("float64"), np.dtype("float32")):
+            run.count("skipped:jacobian_dtype_not_floating")
             return
+        narrow = _narrowing(run, a["dtype"])
         obs = _pair(a["coordinates"])
         if obs is None:
             run.count("skipped:unequal_coordinate_shapes")
@@ -580,7 +599,7 @@ def install(tap, run):
         if east.size == 0:
             return
         expo, expected, mults = trend_reference(east, north, degree)
-        tol = 4 * EPS * mults[None, :] * np.abs(expected) + TINY
+        tol = 4 * EPS * mults[None, :] * np.abs(expected) + TINY + narrow * np.abs(expected) + (float(np.finfo("float32").tiny) if narrow else 0.0)
         ratio = np.where(np.isfinite(jac), np.abs(jac - expected) / tol, np.inf)
         worst = np.unravel_index(int(np.argmax(ratio)), ratio.shape)
         run.observe_max("trend_jacobian_error_over_tolerance", ratio[worst] if np.isfinite(ratio[worst]) else 1e300)
@@ -1895,7 +1914,58 @@ def _stream_defaults(run, rng, verde, index):
     run.sample("defaults", {"estimator": name, "compared": "predictions / Jacobians of estimators built without optional arguments against the documented defaults spelled out"})
 
 
-_STREAMS = {"defaults": _stream_defaults, "gridlike": _stream_gridlike, "large": _stream_large, "copies": _stream_copies, "extras": _stream_extras, "spelling": _stream_spelling, "history": _stream_history, "integer": _stream_integer, "ladder": _stream_ladder, "pairs": _stream_pairs, "translation": _stream_translation, "vector": _stream_vector,
+def _stream_narrow_jacobian(run, rng, verde, index):
+    """jacobian(..., dtype='float32') with UTM-like coordinates: kernels on float64 differences, only the result is narrowed."""
+    kind = index % 3
+    n, m = int(rng.integers(4, 40)), int(rng.integers(2, 20))
+    off_e, off_n = float(rng.uniform(5e5, 9e5)), float(rng.uniform(1e6, 9e6))
+    sep = float(10 ** rng.uniform(0, 3))  # separations 1 .. 1000 m
+    east, north = off_e + rng.uniform(0, sep * 10, n), off_n + rng.uniform(0, sep * 10, n)
+    fe, fn = east[:m].copy() + rng.normal(0, sep, min(m, n)) * (rng.random(min(m, n)) < 0.7), north[:m].copy()
+    dtype = ("float32", np.float32, np.dtype("float32"), "float64", "f4")[(index // 3) % 5]
+    shift = float(rng.choice([1e6, -4e5, 2 ** 20]))
+    if kind == 0:
+        est = verde.Spline(mindist=float(rng.choice([1.0, 10.0]))) if rng.random() < 0.4 else verde.Spline()
+        args = ((east, north), (fe, fn))
+        moved = ((east + shift, north + shift), (fe + shift, fn + shift))
+    elif kind == 1:
+        est = verde.VectorSpline2D(poisson=float(rng.uniform(-1, 1)), mindist=float(rng.choice([1.0, 100.0, 10e3])))
+        args = ((east, north), (fe, fn))
+        moved = ((east + shift, north + shift), (fe + shift, fn + shift))
+    else:
+        est = verde.Trend(int(rng.integers(0, 4)))
+        args = ((east - off_e, north - off_n),)  # polynomials are not translation invariant: local coordinates
+        moved = None
+    jac = est.jacobian(*args, dtype=dtype)
+    run.count("narrow_jacobian:%s:%s" % (type(est).__name__, np.dtype(dtype).name))
+    if moved is not None:
+        jac_moved = est.jacobian(*moved, dtype=dtype)
+        run.evaluated("narrow_jacobian_translation")
+        eps_out = float(np.finfo(np.dtype(dtype)).eps)
+        full = np.asarray(est.jacobian(*args), dtype="float64")
+        # differences of the shifted coordinates carry the round-off of the shift itself (|delta| <= 8 eps max|coordinate|): allow its first-order
+        # effect on each kernel, |dG/d(delta)| <= r (2|ln r| + 1) for the spline and (|3 - nu| + 3 |1 + nu|) / r for the elastic kernels
+        delta = 8 * EPS * (max(float(np.max(np.abs(east))), float(np.max(np.abs(north)))) + abs(shift))
+        rr = np.hypot(east[:, None] - fe[None, :], north[:, None] - fn[None, :]) + float(est.mindist)
+        with np.errstate(divide="ignore", invalid="ignore"):
+            if kind == 0:
+                deriv = np.where(rr > 0, rr * (2 * np.abs(np.log(np.where(rr > 0, rr, 1.0))) + 1), 0.0)
+            else:
+                deriv = np.tile((abs(3 - est.poisson) + 3 * abs(1 + est.poisson)) / rr, (2, 2))
+        slack = 8 * eps_out * np.abs(full) + 4 * delta * deriv + float(np.finfo(np.dtype(dtype)).tiny)
+        bad = np.abs(np.asarray(jac_moved, dtype="float64") - np.asarray(jac, dtype="float64")) > slack + 64 * EPS * (np.abs(full) + 1.0)
+        if np.any(bad):
+            i, j = (int(v) for v in np.argwhere(bad)[0])
+            run.violation("narrow_jacobian_translation", "%s.jacobian(dtype=%s) entry (%d,%d) changes from %r to %r when every coordinate is shifted by %g (float64 entry %r)"
+                          % (type(est).__name__, np.dtype(dtype).name, i, j, float(jac[i, j]), float(jac_moved[i, j]), shift, float(full[i, j])),
+                          {"east": east, "north": north, "force_east": fe, "force_north": fn, "shift": shift, "dtype": np.dtype(dtype).name}, key="narrow-translation:" + type(est).__name__)
+        else:
+            run.mark_nontrivial("narrow_jacobian", type(est).__name__, np.dtype(dtype).name, east, north, fe, fn)
+    run.sample("narrow_jacobian", {"estimator": type(est).__name__, "dtype": np.dtype(dtype).name, "offsets": [off_e, off_n], "separation": sep,
+                                   "compared": "the float32 Jacobian against the float64 reference rounded to float32 (jacobian monitors) and against the same points shifted"})
+
+
+_STREAMS = {"narrow_jacobian": _stream_narrow_jacobian, "defaults": _stream_defaults, "gridlike": _stream_gridlike, "large": _stream_large, "copies": _stream_copies, "extras": _stream_extras, "spelling": _stream_spelling, "history": _stream_history, "integer": _stream_integer, "ladder": _stream_ladder, "pairs": _stream_pairs, "translation": _stream_translation, "vector": _stream_vector,
             "trend": _stream_trend, "checker": _stream_checker, "scipy": _stream_scipy, "fitted": _stream_fitted}
 
 
